@@ -13,6 +13,43 @@ def parse_model(model):
         return DznJsonAst(json.dumps(D.to_json(model['doc']))).process()
 
 
+# FAILURE PATHS: the model parsed by a parser instance that had FAILED on another document before (inside nested namespaces)
+_FAILING_DOC = [['enum', 'Early', ['E']], ['ns', ['Zq'], [['ns', ['Zr', 'Zs'], [
+    ['enum', 'Fine', ['F']], ['junk', {'<class>': 'component', 'name': D.sn(['Broken'])}]]]]]]
+_FAILING_DOC2 = [['ns', ['Zq'], [['ns', ['Zr'], [['junk', {'<class>': 'enum', 'name': D.sn(['Not-An-Identifier']), 'fields': []}]]]]]]
+_REUSE = {}
+EXTRA_FORMS = set()       # checks that want every build() repeated on a model from a re-used parser add 'reused-parser'
+
+
+def parse_model_reused(model, which=0):
+    import os  # pylint: disable=import-outside-toplevel
+    import tempfile  # pylint: disable=import-outside-toplevel
+    from dznpy.json_ast import DznJsonAst  # pylint: disable=import-outside-toplevel
+    with contextlib.redirect_stdout(io.StringIO()):
+        parser = DznJsonAst(json.dumps(D.to_json(_FAILING_DOC2 if which else _FAILING_DOC)))
+        try:
+            parser.process()
+        except Exception as exc:  # pylint: disable=broad-except
+            _REUSE['kept'] = exc      # kept alive together with its traceback
+        else:
+            raise AssertionError('the failing document was accepted')
+        if _REUSE.get('pid') != os.getpid():
+            _REUSE['dir'] = tempfile.mkdtemp(prefix='vf_reuse_')
+            _REUSE['pid'] = os.getpid()
+        path = os.path.join(_REUSE['dir'], 'model.json')
+        with open(path, 'w', encoding='utf-8') as fh:
+            json.dump(D.to_json(model['doc']), fh)
+        return parser.load_file(path).process()
+
+
+def cleanup_reuse():
+    import os  # pylint: disable=import-outside-toplevel
+    import shutil  # pylint: disable=import-outside-toplevel
+    if _REUSE.get('pid') == os.getpid() and 'dir' in _REUSE:
+        shutil.rmtree(_REUSE['dir'], ignore_errors=True)
+    _REUSE.clear()
+
+
 class StrSub(str):
     """REPRESENTATION: a name that is an instance of a str subclass with its own __str__ - like a member of
     `class Port(str, Enum)`, whose str() is 'Port.GLUE' while it IS the string 'glue'."""
@@ -110,6 +147,22 @@ def build(model, cfg):
             outcomes.append(('OK', _build_once(model, cfg, verbose, use)))
         except Exception as exc:  # pylint: disable=broad-except
             outcomes.append(('EXC', exc))
+    if 'reused-parser' in EXTRA_FORMS and fct is not None:
+        for which in (0, 1):
+            try:
+                outcomes.append(('OK', _build_once(model, cfg, False, parse_model_reused(model, which))))
+            except AssertionError:
+                raise
+            except Exception as exc:  # pylint: disable=broad-except
+                outcomes.append(('EXC', exc))
+            k0, v0 = outcomes[0]
+            k2, v2 = outcomes[-1]
+            if k0 != k2 or (k0 == 'OK' and v0 != v2) or (k0 == 'EXC' and type(v0) is not type(v2)):
+                def show2(kind, val):
+                    return 'files ' + str([f[0] for f in val]) if kind == 'OK' else f'{type(val).__name__}: {val}'
+                raise VerboseChangesOutcome(f'model from a fresh parser -> {show2(k0, v0)} ; the same model from a parser instance that '
+                                            f'had failed on another document before -> {show2(k2, v2)}')
+        outcomes = outcomes[:2]
     (k0, v0), (k1, v1) = outcomes
     if k0 != k1 or (k0 == 'OK' and v0 != v1) or (k0 == 'EXC' and type(v0) is not type(v1)):
         def show(kind, val):
